@@ -452,6 +452,10 @@ Check(s, e) ==
     [] e.ev \in {"bf_end", "sb_end"} -> CheckEnd(s, e)
     [] e.ev = "build_end" -> CheckBuildEnd(s, e)
     [] e.ev = "clean" -> CheckClean(s, e)
+    \* C17: a method of a builder whose function has ended raises RuntimeError, calls nothing, changes nothing
+    [] e.ev = "stale" -> IF e.res.ok \/ e.res.err # "RuntimeError" THEN "FencedAfterClose"
+                         ELSE IF e.called # 0 THEN "FencedAfterClose" ELSE ""
+    [] e.ev = "idle_check" -> IF s.ph # "idle" THEN "H:idle-check" ELSE IF FsOf(e.disk) # s.disk THEN "FencedNoEffect" ELSE ""
     [] e.ev = "par_fail" -> IF e.deadlock THEN "NoDeadlock" ELSE "NoSpuriousException"
     [] OTHER -> "H:unknown-event"
 
